@@ -38,3 +38,48 @@ package lib
 //@   trusted
 //@   ensures result == flen && flen >= 0
 //@   modifies nothing
+
+// ---------------------------------------------------------------- locks (sequential lock-state model; A-lib sync, A-conc)
+//@ ghost field sync.Mutex.held bool
+//@ ghost field sync.RWMutex.wheld bool
+//@ ghost field sync.RWMutex.rcount int
+
+//@ func sync.(*Mutex).Lock
+//@   trusted
+//@   ensures m.held
+//@   modifies m.held
+
+//@ func sync.(*Mutex).Unlock
+//@   trusted
+//@   requires m.held
+//@   ensures !m.held
+//@   modifies m.held
+
+//@ func sync.(*RWMutex).Lock
+//@   trusted
+//@   ensures rw.wheld
+//@   modifies rw.wheld
+
+//@ func sync.(*RWMutex).Unlock
+//@   trusted
+//@   requires rw.wheld
+//@   ensures !rw.wheld
+//@   modifies rw.wheld
+
+//@ func sync.(*RWMutex).RLock
+//@   trusted
+//@   ensures rw.rcount == old(rw.rcount) + 1
+//@   modifies rw.rcount
+
+//@ func sync.(*RWMutex).RUnlock
+//@   trusted
+//@   requires rw.rcount >= 1
+//@   ensures rw.rcount == old(rw.rcount) - 1
+//@   modifies rw.rcount
+
+// ---------------------------------------------------------------- disk model (A-os-io)
+//@ ghost var unsynced int       -- number of writeAt calls since the last successful fdatasync
+//@ ghost var nwrites int        -- number of writeAt calls issued so far
+//@ ghost var lastwriteoff int   -- offset of the most recent writeAt
+//@ ghost var lastwritelen int   -- length of the most recent writeAt
+//@ ghost var nsyncs int         -- number of successful fdatasync calls
